@@ -1244,6 +1244,23 @@ def _uf_concrete(name, args, extra):
         _UF_CACHE[key] = symcodec.dec_cell(r["out"]["f"], "f")
     return _UF_CACHE[key]
 
+def uf_reducer(name, fp_args, extra=(), extra_terms=()):
+    """Uninterpreted NumPy reducer on Float64 terms, with the documented facts as axioms:
+    empty input -> NaN; a NaN element -> NaN; std/var with n - ddof <= 0 -> NaN."""
+    r = uf(name, list(fp_args) + list(extra_terms), extra)
+    if symx.CTX is None or z3.is_fp_value(r):
+        return r
+    c = symx.ctx()
+    if not fp_args:
+        c.assume(z3.fpIsNaN(r))
+    else:
+        c.assume(z3.Implies(z3.Or([z3.fpIsNaN(a) for a in fp_args]), z3.fpIsNaN(r)), note=f"np.{name}: a NaN element gives NaN")
+    if name in ("std", "var") and len(fp_args) - (int(extra[0]) if extra else 0) <= 0:
+        c.assume(z3.fpIsNaN(r), note="np.std/np.var: n - ddof <= 0 gives NaN")
+    note = f"np.{name} is an uninterpreted function of its elements (same symbol in implementation and oracle)"
+    if note not in c.assumptions: c.assumptions.append(note)
+    return r
+
 def _reducer(name, x, extra=(), extra_terms=()):
     if not isinstance(x, ndarray): x = array(x)
     k = x.dtype.kind
@@ -1251,15 +1268,8 @@ def _reducer(name, x, extra=(), extra_terms=()):
         raise TypeError(f"ufunc '{name}' cannot use operands with types {x.dtype}" if k in "TUM" else f"unsupported operand type(s) for {name}")
     cs = x._cells()
     if k == "b": cs = [z3.If(c, z3.BitVecVal(1, 64), z3.BitVecVal(0, 64)) for c in cs]
-    args = [fp_of_bv(c) if k in "ib" else c for c in cs] + list(extra_terms)
-    r = uf(name, args, extra)
-    c = symx.ctx()
-    if name in ("mean", "median", "std", "var", "quantile") and not cs:
-        c.assume(z3.fpIsNaN(r))
-    if k == "f" and cs:
-        c.assume(z3.Implies(z3.Or([z3.fpIsNaN(a) for a in cs]), z3.fpIsNaN(r)), note=f"np.{name}: a NaN element gives NaN")
-    c.assumptions.append(f"np.{name} is an uninterpreted function of its elements") if f"np.{name} is an uninterpreted function of its elements" not in c.assumptions else None
-    return SymF64(r)
+    args = [fp_of_bv(c) if k in "ib" else c for c in cs]
+    return SymF64(uf_reducer(name, args, extra, extra_terms))
 
 def mean(x, axis=None): return _reducer("mean", x)
 def median(x, axis=None): return _reducer("median", x)
